@@ -17,10 +17,13 @@
    element of a rank-1 array emits element i count_i times.
    C13_repeat_rank1 — along axis 0 of a rank-1 array element i is emitted count_i consecutive times (the split into
    one-element pieces, the re-assembly and the identity axis move are inside the theorem).
+   ROUND TRIP (C13_insert_then_delete): `marks` flags the inserted slots of the flat insertion's result (the values
+   requested for a position precede the original element there) and deleting exactly the flagged positions returns the
+   flattened original — "deleting what was just inserted restores the original", for any request list.
    insert along an axis is outside the property's text (it speaks of flat positions) and is checked as a model/code
    correspondence only. *)
 From Coq Require Import Sorted.
-From ArrRs Require Import Index Axis Axis_proofs Broadcast_proofs Reduce Along_proofs Edit Edit_proofs Delete_proofs Broadcast Insert_proofs Repeat_proofs Repeat_flat Join_refuse Repeat_rank1.
+From ArrRs Require Import Index Axis Axis_proofs Broadcast_proofs Reduce Along_proofs Edit Edit_proofs Delete_proofs Broadcast Insert_proofs Repeat_proofs Repeat_flat Join_refuse Repeat_rank1 Insert_roundtrip.
 
 Theorem C13_trim : forall (A : Type) (p : A -> bool) l,
   let t := drop_while p (rev (drop_while p (rev l))) in
@@ -100,6 +103,25 @@ Proof. exact @insert_flat_spec. Qed.
 Theorem C13_insert_flat_refuses : forall (T : Type) (d : T) (a values : arr T) idx i,
   In i idx -> len a < i -> insert_flat d a idx values = Err EOob.
 Proof. exact @insert_flat_refuse. Qed.
+
+Theorem C13_marks_def : forall (T : Type) (l : list T) pairs,
+  marks l pairs = flat_map (fun i => repeat true (length (filter (fun p => fst p =? i) pairs)) ++ (if i <? length l then [false] else []))
+                           (seq 0 (S (length l))).
+Proof. intros. unfold marks, group. apply flat_map_ext. intros i. now rewrite map_length. Qed.
+
+Theorem C13_flagged_def : forall k b t, flagged k (b :: t) = (if b then [k] else []) ++ flagged (S k) t.
+Proof. reflexivity. Qed.
+
+Theorem C13_insert_then_delete : forall (T : Type) (d : T) (a : arr T) pairs,
+  keep (insert_spec d (elems a) pairs) (flagged 0 (marks (elems a) pairs)) = elems a /\
+  delete d (mk (insert_spec d (elems a) pairs) [length (insert_spec d (elems a) pairs)]) (flagged 0 (marks (elems a) pairs)) None
+    = Ok (mk (elems a) [len a]).
+Proof. intros. split; [apply insert_then_delete | apply insert_then_delete_arr]. Qed.
+
+Example C13_roundtrip_nonvacuous :
+  insert_spec 0%Z [10; 20; 30]%Z [(3, 7%Z); (1, 8%Z); (1, 9%Z)] = [10; 8; 9; 20; 30; 7]%Z /\
+  flagged 0 (marks [10; 20; 30]%Z [(3, 7%Z); (1, 8%Z); (1, 9%Z)]) = [1; 2; 5].
+Proof. split; vm_compute; reflexivity. Qed.
 
 Theorem C13_repeat_rank1 : forall (T : Type) (d : T) (a : arr T) repeats n rb,
   wf a -> shape a = [n] -> 0 < n ->
